@@ -1026,6 +1026,11 @@ func runSpecs(t *testing.T, leg string, specs []spec, exhaustive bool) {
 		if v.Class == "killed" || v.Class == "survivor" {
 			rec.NonTrivial()
 		}
+		if v.Class == "survivor" && expectedKilled()[specs[i].String()] {
+			// ratchet first: this very deviant was rejected at the pinned commit. That its (operation, kind) class has
+			// listed survivors under OTHER triggers does not cover it.
+			rec.Failf(t, "C20:regressed:"+specs[i].String(), "deviant %s was rejected by the suite at the pinned commit; now it changes what the suite observes in scenarios %v, yet the suite reports no failure", v.Spec, v.Differs)
+		}
 		if v.Class == "survivor" {
 			sig := sigOf(specs[i])
 			if vf.Known(sig) {
@@ -1135,6 +1140,9 @@ func TestReplayAll(t *testing.T) {
 					}
 					sp := parseSpec(v.Spec)
 					nv := judgeSpec(sp)
+					if nv.Class == "survivor" && expectedKilled()[sp.String()] {
+						return "C20:regressed:" + sp.String(), fmt.Sprintf("deviant %s survives (differs in %v) although the suite rejected it at the pinned commit", nv.Spec, nv.Differs)
+					}
 					if nv.Class == "survivor" {
 						return sigOf(sp), fmt.Sprintf("deviant %s survives (differs in %v)", nv.Spec, nv.Differs)
 					}
